@@ -43,6 +43,8 @@ func c07Op(r *rng, sym byte) hop {
 		return hop{op: 'A', doc: poolDoc(r, 'A')}
 	case 'b':
 		return hop{op: 'A', doc: poolDoc(r, 'B')}
+	case 'd': // same metric count and types as A, one field renamed (schema-aware kinds only)
+		return hop{op: 'A', doc: poolDoc(r, 'D')}
 	case 'u':
 		return hop{op: 'A', raw: []byte{0x03, 0x00, 0x00}}
 	case 'r':
@@ -96,7 +98,11 @@ func init() {
 		// 1. exhaustive short histories over 8 operation symbols
 		for _, kind := range compressingKinds {
 			for _, n := range ns {
-				enumerate("aburxfmi", maxLen, func(h string) {
+				alphabet := "aburxfmi"
+				if kind == "dyn" || kind == "sdyn" {
+					alphabet = "abdurxfmi" // a renamed field must start a new chunk
+				}
+				enumerate(alphabet, maxLen, func(h string) {
 					if thorough && len(h) == 5 && !r.chance(1, 6) {
 						return
 					}
@@ -122,6 +128,9 @@ func init() {
 			l := 5 + r.intn(40)
 			for i := 0; i < l; i++ {
 				sym := "aaaaaaabbburxfmi"[r.intn(16)]
+				if (c.kind == "dyn" || c.kind == "sdyn") && r.chance(1, 6) {
+					sym = 'd'
+				}
 				c.ops = append(c.ops, c07Op(r, sym))
 			}
 			id++
